@@ -28,7 +28,7 @@ def entry_point_cases(c, rng, quick):
                 params.append((pn, h2f(d), h2f(lo), h2f(hi), int(nd)))
         models.append((name, int(nin), int(nst), int(nout), int(ndim), params))
     cases = []
-    per_model = 3 if quick else 25
+    per_model = 4 if quick else 25
     for (name, nin, nst, nout, ndim, params) in models:
         if ndim > 0 or nin == 0:
             continue        # table-parameter models need structured columns: covered by C04
@@ -36,7 +36,9 @@ def entry_point_cases(c, rng, quick):
             N = rng.choice([1, 2, 3])
             nPS = rng.choice([1, N])
             nIS = rng.choice([1, N])
-            T = rng.choice([1, 5, 12])
+            T = rng.choice([0, 1, 1, 5, 12])
+            if T == 0 and name in ('StorageTrapAll', 'InstreamDissolvedNutrientDecay'):
+                T = 1      # these two kernels index element 0 of an empty series (known finding of C04)
             init = 1 if name in ('GR4J', 'Lag') else rng.choice([0, 1])
             pv = []
             for (pn, d, lo, hi, nd) in params:
